@@ -31,9 +31,13 @@ def close_all():
 
 
 class Session:
+    HORIZON = 1e12
+
     def __init__(self, backend, config=None, storage_options=None, max_limit=6000, subscriber=True):
         self.backend = backend
-        self.w = World(backend, config=config, storage_options=storage_options, max_limit=max_limit)
+        so = dict(storage_options or {})
+        so.setdefault("stats_interval", 1e15)  # housekeeping timer out of reach of the virtual clock
+        self.w = World(backend, config=config, storage_options=so, max_limit=max_limit, message_timeout=1e300)
         self.with_subscriber = subscriber
         self._raw = None
         self._open_conns()
@@ -71,6 +75,7 @@ class Session:
             fakelmdb._ENVS[w.path] = SortedDict({b"\xee": b""})
             w.env.mutlog.clear()
             w.ns.kv.compile_match_from_query.cache_clear()
+        self._fresh_writer()
         for c in (self.cw, self.cq, self.cs):
             if c is not None:
                 del c.transcript[:]
@@ -78,6 +83,16 @@ class Session:
 
     def dump(self):
         return self.w.dump()
+
+    def _fresh_writer(self):
+        """start_client keeps a per-connection throttle that doubles with every refused EVENT: use a fresh
+        submitting connection per restored state so that the sleeps stay small."""
+        w = self.w
+        self.cw.drop()
+        w.run(self.HORIZON)
+        w.conns.pop(self.cw.name, None)
+        self.cw = w.connect("w", "1.1.1.1")
+        w.run(self.HORIZON)
 
     def restore(self, dump):
         w = self.w
@@ -92,6 +107,7 @@ class Session:
                                   [(bf(r[0]), r[1], r[2]) for r in tg])
         else:
             fakelmdb._ENVS[w.path] = SortedDict(dump)
+        self._fresh_writer()
 
     # ---------------------------------------------------------------------------------------------
     def submit(self, ev, raw_frame=None):
@@ -101,7 +117,7 @@ class Session:
         n0 = len(self.cw.transcript)
         s0 = len(self.cs.transcript) if self.cs is not None else 0
         frame = raw_frame if raw_frame is not None else json.dumps(["EVENT", ev], ensure_ascii=False)
-        w.send("w", frame)
+        w.send(self.cw, frame, self.HORIZON)
         oks, other = [], []
         for kind, _, text in self.cw.transcript[n0:]:
             if kind == "send":
@@ -120,7 +136,15 @@ class Session:
         if self.cs is not None:
             for kind, _, text in self.cs.transcript[s0:]:
                 if kind == "send":
-                    m = json.loads(text)
+                    try:
+                        m = json.loads(text)
+                    except ValueError:
+                        # frame well-formedness is C04's business; recover the id so other oracles can go on
+                        import re
+
+                        mm = re.search(r'"id":"([0-9a-fA-F]{1,64})"', text)
+                        pushed.append({"id": mm.group(1) if mm else None, "_unparseable": text})
+                        continue
                     if m[0] == "EVENT":
                         pushed.append(m[2])
         return {"ok": oks, "pushed": pushed, "other": other}
@@ -145,11 +169,11 @@ class Session:
             self.cq = c = w.connect("q%d" % w.tick(), "3.3.3.3")
             w.run()
         n0 = len(c.transcript)
-        w.send(c, json.dumps(["REQ", sub_id] + list(filters), ensure_ascii=False))
+        w.send(c, json.dumps(["REQ", sub_id] + list(filters), ensure_ascii=False), self.HORIZON)
         frames = [t[2] for t in c.transcript[n0:] if t[0] == "send"]
         closed = c.closed_by_relay is not None or c.task.done()
         if not closed:
-            w.send(c, json.dumps(["CLOSE", sub_id]))
+            w.send(c, json.dumps(["CLOSE", sub_id]), self.HORIZON)
         if raw:
             return frames, closed
         return [json.loads(f) for f in frames], closed
